@@ -93,13 +93,13 @@ package coregex
 
 //@ func Compile
 //@   props C09 C07
-//@   ensures result1 == nil ==> result0 != nil && !result0.longest && result0.engine != nil && !result0.engine.longest && result0.engine.pikevm != nil && parses(pattern, 212)
+//@   ensures result1 == nil ==> result0 != nil && !result0.longest && !result0.posix && result0.engine != nil && !result0.engine.longest && result0.engine.pikevm != nil && parses(pattern, 212) && fresh(result0) && fresh(result0.engine) && sameslice(result0.pattern, pattern)
 //@   ensures !parses(pattern, 212) ==> result1 != nil
 
 // CompilePOSIX must accept exactly what the POSIX (flags 0) parser accepts and switch to leftmost-longest
 //@ func CompilePOSIX
 //@   props C09 C10 C07
-//@   ensures result1 == nil ==> result0 != nil && result0.longest && result0.engine.longest && parses(pattern, 0)
+//@   ensures result1 == nil ==> result0 != nil && result0.longest && result0.posix && result0.engine != nil && result0.engine.longest && result0.engine.pikevm != nil && parses(pattern, 0) && fresh(result0) && fresh(result0.engine) && sameslice(result0.pattern, pattern)
 //@   ensures !parses(pattern, 0) ==> result1 != nil
 
 //@ func (*Regex).Longest
@@ -208,3 +208,29 @@ package coregex
 //@   loop 2: invariant len(dst) >= old(len(dst)) && (forall k :: 0 <= k && k < old(len(dst)) ==> dst[k] == old(dst[k]))
 //@   loop 2: invariant (base(dst) == old(base(dst)) && off(dst) == old(off(dst))) || fresh(dst)
 //@   loop 2: decreases rangelen - rangeindex
+
+// Copy: an independent value (fresh Regex and engine) compiled with the same syntax and in the same mode;
+// Longest() on either does not touch the other (frame).
+//@ func (*Regex).Copy
+//@   props C09 C10 C07
+//@   requires r != nil && (r.posix ==> r.longest)
+//@   ensures result != nil ==> fresh(result) && fresh(result.engine) && result.longest == r.longest && result.posix == r.posix && sameslice(result.pattern, r.pattern)
+//@   ensures result != nil ==> (r.posix ==> parses(r.pattern, 0)) && (!r.posix ==> parses(r.pattern, 212))
+
+// UnmarshalText always recompiles (Perl syntax, default mode), as regexp does
+//@ func (*Regex).UnmarshalText
+//@   props C09 C07
+//@   requires r != nil
+//@   modifies r.*
+//@   ensures result == nil ==> r.engine != nil && fresh(r.engine) && !r.longest && !r.posix && !r.engine.longest
+//@   ensures result != nil ==> r.engine == old(r.engine) && r.longest == old(r.longest)
+
+//@ func (*Regex).MarshalText
+//@   props C09 C07
+//@   requires r != nil
+//@   ensures result1 == nil && len(result0) == len(r.pattern) && (forall i :: 0 <= i && i < len(result0) ==> result0[i] == r.pattern[i])
+
+//@ func (*Regex).String
+//@   props C09 C07
+//@   requires r != nil
+//@   ensures sameslice(result, r.pattern)
